@@ -494,9 +494,43 @@ func WriteToDisk(prog *Program, dir string) error {
 // KeyCounts counts distinct diagnostics per file:line:code key. The same
 // diagnostic reported for several package variants (same position and text)
 // counts once; two diagnostics at different columns of a line count twice.
+// CollapseVariants keeps, for every distinct diagnostic (position, code, message),
+// as many copies as the package variant reporting it most often holds: the test
+// variant of a package repeats the diagnostics of its regular files (one copy is
+// kept), a checker that reports one finding twice within a variant is still visible.
+func CollapseVariants(ds []Diag) []Diag {
+	type k struct{ uk, pkg string }
+	per := map[k]int{}
+	first := map[string]Diag{}
+	var order []string
+	for _, d := range ds {
+		uk := fmt.Sprintf("%s:%d:%d:%s:%s", d.File, d.Line, d.Col, d.Code, d.Message)
+		if _, ok := first[uk]; !ok {
+			first[uk] = d
+			order = append(order, uk)
+		}
+		per[k{uk, d.Pkg}]++
+	}
+	var out []Diag
+	for _, uk := range order {
+		max := 0
+		for kk, n := range per {
+			if kk.uk == uk && n > max {
+				max = n
+			}
+		}
+		for i := 0; i < max; i++ {
+			out = append(out, first[uk])
+		}
+	}
+	return out
+}
+
 func KeyCounts(ds []Diag, prefixes ...string) map[string]int {
 	out := map[string]int{}
+	ds = CollapseVariants(ds)
 	seen := map[string]bool{}
+	_ = seen
 	for _, d := range ds {
 		if len(prefixes) > 0 {
 			ok := false
@@ -509,11 +543,6 @@ func KeyCounts(ds []Diag, prefixes ...string) map[string]int {
 				continue
 			}
 		}
-		uk := fmt.Sprintf("%s:%d:%d:%s:%s", d.File, d.Line, d.Col, d.Code, d.Message)
-		if seen[uk] {
-			continue
-		}
-		seen[uk] = true
 		out[d.Key()]++
 	}
 	return out
